@@ -1595,3 +1595,154 @@ Proof.
   split; [apply only_fail_no_remove; discriminate|]. split; [apply only_fail_no_remove; discriminate|].
   exact no_temp_left_witnesses_now.
 Qed.
+
+(* ------------------------------------------------------------------------------------------ *)
+(* no temporary file left, per file and for EVERY schedule: whatever is left behind by Close is   *)
+(* a file whose own Remove is among the failures Close recorded                                   *)
+(* ------------------------------------------------------------------------------------------ *)
+
+Definition own_remove_failed (ids : list nat) (wr : option nat) (F : list opinfo) (x : nat) : Prop :=
+  exists o, In o F /\ oi_kind o = ORemove /\
+    ((oi_tgt o = TUpload /\ nth_error ids (oi_off o) = Some x) \/ (oi_tgt o = TSpill /\ wr = Some x)).
+
+Lemma remove_from_left S ids : forall pos w,
+  let w' := snd (remove_from S pos ids w) in
+  (forall f, In f (fs_files (w_fs w')) ->
+     In f (fs_files (w_fs w)) /\
+     forall i, nth_error ids i = Some (f_id f) ->
+       exists o, In o (w_faults w') /\ oi_kind o = ORemove /\ oi_tgt o = TUpload /\ oi_off o = pos + i) /\
+  (forall n0, (forall x, In x ids -> n0 <= x) ->
+     filter (low n0) (fs_files (w_fs w')) = filter (low n0) (fs_files (w_fs w))) /\
+  incl (w_faults w) (w_faults w').
+Proof.
+  induction ids as [|id r IH]; intros pos w; cbn [remove_from].
+  - cbn. repeat split; auto.
+    + intros i Hi. destruct i; discriminate.
+    + apply incl_refl.
+  - pose proof (fs_remove_spec S TUpload pos id w) as Hs.
+    destruct (fs_remove S TUpload pos id w) as [ok1 w1]; cbn in Hs.
+    destruct Hs as (_ & _ & _ & _ & _ & Hs).
+    specialize (IH (Datatypes.S pos) w1). destruct (remove_from S (Datatypes.S pos) r w1) as [ok2 w2]. cbn in *.
+    destruct IH as (I1 & I2 & I3).
+    assert (Hfiles : fs_files (w_fs w1) = fs_files (w_fs w) \/ fs_files (w_fs w1) = drop_file id (fs_files (w_fs w)))
+      by (destruct Hs as [(_ & _ & E)|(_ & _ & [E|E])]; auto).
+    assert (Hincl : incl (w_faults w) (w_faults w1)).
+    { destruct Hs as [(_ & E & _)|(_ & E & _)]; rewrite E; [apply incl_refl | apply incl_tl, incl_refl]. }
+    split; [|split].
+    + intros f Hf. destruct (I1 f Hf) as [Hf1 Hn]. split.
+      * destruct Hfiles as [E|E]; rewrite E in Hf1; [assumption | apply in_drop_file in Hf1; tauto].
+      * intros [|i] Hi; cbn in Hi.
+        -- inversion Hi; subst id.
+           destruct Hs as [(_ & _ & E)|(_ & Ef & [E|E])].
+           ++ rewrite E in Hf1. apply in_drop_file in Hf1. tauto.
+           ++ exists (mkop (w_ctr w) (w_call w) ORemove TUpload pos 0). split.
+              ** apply I3. rewrite Ef. left; reflexivity.
+              ** cbn. repeat split; auto; lia.
+           ++ rewrite E in Hf1. apply in_drop_file in Hf1. tauto.
+        -- destruct (Hn i Hi) as (o & Ho & K1 & K2 & K3). exists o. repeat split; auto; lia.
+    + intros n0 Hn. rewrite I2 by (intros x Hx; apply Hn; auto).
+      destruct Hfiles as [E|E]; rewrite E; [reflexivity|]. apply filter_low_drop. apply Hn; auto.
+    + eapply incl_tran; eassumption.
+Qed.
+
+Lemma bb_reset_left V S w : v_reset_fixed V = true ->
+  let w' := snd (bb_reset V S w) in
+  (forall f, In f (fs_files (w_fs w')) ->
+     In f (fs_files (w_fs w)) /\
+     (bb_writer (wbuf w) = Some (f_id f) ->
+        exists o, In o (w_faults w') /\ oi_kind o = ORemove /\ oi_tgt o = TSpill)) /\
+  (forall n0, (forall id, bb_writer (wbuf w) = Some id -> n0 <= id) ->
+     filter (low n0) (fs_files (w_fs w')) = filter (low n0) (fs_files (w_fs w))) /\
+  incl (w_faults w) (w_faults w').
+Proof.
+  intro HV. unfold bb_reset. rewrite HV. destruct (bb_writer (wbuf w)) as [id|].
+  2:{ cbn. repeat split; auto; [discriminate | apply incl_refl]. }
+  pose proof (fs_close_spec S TSpill id (w_set_buf bb_init w)) as Hc.
+  destruct (fs_close S TSpill id (w_set_buf bb_init w)) as [okc w1]. cbn in Hc.
+  destruct Hc as (_ & _ & _ & Hf1 & _ & _ & Hfl1).
+  assert (Hincl1 : incl (w_faults w) (w_faults w1)).
+  { destruct Hfl1 as [(_ & E)|(_ & E)]; rewrite E; [apply incl_refl | apply incl_tl, incl_refl]. }
+  pose proof (fs_remove_spec S TSpill 0 id w1) as Hs.
+  destruct (fs_remove S TSpill 0 id w1) as [okr w2]. cbn in Hs. cbn [snd].
+  destruct Hs as (_ & _ & _ & _ & _ & Hs). cbn in Hf1.
+  assert (Hfiles : fs_files (w_fs w2) = fs_files (w_fs w) \/ fs_files (w_fs w2) = drop_file id (fs_files (w_fs w)))
+    by (rewrite <- Hf1; destruct Hs as [(_ & _ & E)|(_ & _ & [E|E])]; auto).
+  split; [|split].
+  - intros f Hf. split.
+    + destruct Hfiles as [E|E]; rewrite E in Hf; [assumption | apply in_drop_file in Hf; tauto].
+    + intro Ew. inversion Ew; subst id.
+      destruct Hs as [(_ & _ & E)|(_ & Ef & [E|E])].
+      * rewrite E, Hf1 in Hf. apply in_drop_file in Hf. tauto.
+      * exists (mkop (w_ctr w1) (w_call w1) ORemove TSpill 0 0). rewrite Ef. cbn. auto.
+      * rewrite E, Hf1 in Hf. apply in_drop_file in Hf. tauto.
+  - intros n0 Hn. destruct Hfiles as [E|E]; rewrite E; [reflexivity|]. apply filter_low_drop. apply Hn; reflexivity.
+  - eapply incl_tran; [exact Hincl1|]. destruct Hs as [(_ & E & _)|(_ & E & _)]; rewrite E; [apply incl_refl | apply incl_tl, incl_refl].
+Qed.
+
+Lemma close_left_per_file n0 files0 V S c w :
+  v_reset_fixed V = true -> keep_files c (w_tx w) = false -> winv n0 files0 w ->
+  let w' := snd (tx_close V S c w) in
+  filter (low n0) (fs_files (w_fs w')) = files0 /\
+  forall f, In f (fs_files (w_fs w')) -> n0 <= f_id f ->
+    own_remove_failed (t_tmpnames (w_tx w)) (bb_writer (t_buf (w_tx w))) (w_faults w') (f_id f).
+Proof.
+  intros HV HK (A & B & C & D). unfold tx_close. rewrite HK. unfold remove_all.
+  pose proof (remove_from_left S (t_tmpnames (w_tx w)) 0 w) as R.
+  pose proof (remove_from_tx S (t_tmpnames (w_tx w)) 0 w) as RT.
+  destruct (remove_from S 0 (t_tmpnames (w_tx w)) w) as [ok1 w1]. cbn in R, RT. destruct R as (R1 & R2 & R3).
+  set (w2 := set_tx (reset_vars (w_tx w1)) w1).
+  pose proof (bb_reset_left V S w2 HV) as Hb.
+  destruct (bb_reset V S w2) as [ok2 w3]. cbn [snd] in Hb |- *. destruct Hb as (B1 & B2 & B3).
+  assert (Hw : bb_writer (wbuf w2) = bb_writer (t_buf (w_tx w))) by (subst w2; unfold wbuf; cbn; rewrite RT; reflexivity).
+  assert (Dt : forall x, In x (t_tmpnames (w_tx w)) -> n0 <= x).
+  { intros x Hx. apply D. unfold owned. apply in_or_app; auto. }
+  assert (Dw : forall id, bb_writer (wbuf w2) = Some id -> n0 <= id).
+  { intros id E. rewrite Hw in E. apply D. unfold owned. rewrite E. apply in_or_app; right; left; reflexivity. }
+  split.
+  - rewrite (B2 n0 Dw). change (fs_files (w_fs w2)) with (fs_files (w_fs w1)). rewrite (R2 n0 Dt). exact A.
+  - intros f Hf L. destruct (B1 f Hf) as [Hf2 Hsp]. change (fs_files (w_fs w2)) with (fs_files (w_fs w1)) in Hf2.
+    destruct (R1 f Hf2) as [Hf0 Hup].
+    specialize (B f Hf0 L). unfold owned in B. apply in_app_or in B. destruct B as [B|B].
+    + apply In_nth_error in B. destruct B as (i & Hi). destruct (Hup i Hi) as (o & Ho & K1 & K2 & K3).
+      exists o. split; [apply B3; exact Ho|]. split; [assumption|]. left. split; [assumption|]. rewrite K3. exact Hi.
+    + destruct (bb_writer (t_buf (w_tx w))) as [id|] eqn:Ew; [|contradiction]. destruct B as [B|[]]. subst id.
+      rewrite Hw in Hsp. destruct (Hsp eq_refl) as (o & Ho & K1 & K2).
+      exists o. split; [assumption|]. split; [assumption|]. right. auto.
+Qed.
+
+Lemma no_temp_left_per_file parse V S c l fs :
+  v_reset_fixed V = true -> v_mp_fixed V = true -> fs_wf fs ->
+  let w := run parse V S c l (init_world fs) in
+  keep_files c (w_tx w) = false ->
+  let w' := snd (finish parse V S c l (init_world fs)) in
+  filter (low (fs_next fs)) (fs_files (w_fs w')) = fs_files fs /\
+  forall f, In f (fs_files (w_fs w')) -> fs_next fs <= f_id f ->
+    own_remove_failed (t_tmpnames (w_tx w)) (bb_writer (t_buf (w_tx w))) (w_faults w') (f_id f).
+Proof.
+  intros H1 H2 W w HK. unfold finish.
+  apply (close_left_per_file (fs_next fs) (fs_files fs) V S c (begin_call w)); auto.
+  change (winv (fs_next fs) (fs_files fs) w). apply run_inv; [assumption | apply init_winv; assumption].
+Qed.
+
+(* the seeded defect C20-d (the removal loop returns at the first failure) on the model: a second
+   upload stays behind although its own Remove never failed *)
+Fixpoint remove_from_stop (S : sched) (pos : nat) (ids : list nat) (w : world) : bool * world :=
+  match ids with
+  | [] => (true, w)
+  | id :: r =>
+    let '(ok1, w1) := fs_remove S TUpload pos id w in
+    if ok1 then remove_from_stop S (Datatypes.S pos) r w1 else (false, w1)
+  end.
+
+Lemma stop_at_first_failure_leaves_files :
+  exists S ids w, let w' := snd (remove_from_stop S 0 ids w) in
+    exists f, In f (fs_files (w_fs w')) /\
+      ~ own_remove_failed ids None (w_faults w') (f_id f) /\
+      ~ In f (fs_files (w_fs (snd (remove_from S 0 ids w)))).
+Proof.
+  exists (fun o => if (oi_off o =? 0) && opkind_eqb (oi_kind o) ORemove then Some 1 else None), [0; 1],
+    (init_world (mkfs [mkfile 0 DUpload []; mkfile 1 DUpload []] 2 [])).
+  cbn. exists (mkfile 1 DUpload []). split; [auto|]. split.
+  - intros (o & [Ho|[]] & _ & [[_ K]|[_ K]]); [subst o; cbn in K; discriminate | discriminate].
+  - intros [].
+Qed.
